@@ -792,6 +792,11 @@ func (g *generator) enterNextFinallyFrame() (canContinue bool, ex *Exception) {
 			// to the enclosing try statements of the generator. If none of them catches it, handleThrow()
 			// unwinds to the frame pushed by enterNext().
 			g.returning = nil
+			if tf.catchPos == tryPanicMarker {
+				// this is the frame of a 'finally' block that was running because of an earlier return()
+				// and is being abandoned now, it must not stop the exception
+				vm.popTryFrame()
+			}
 			ex = vm.handleThrow(ex)
 			return ex == nil, ex
 		}
